@@ -612,7 +612,9 @@ def _model_in(case):
 
 def to_line(case, impl):
     line = {"op": case["op"], "in": _model_in(case)}
-    if not (isinstance(impl, dict) and "__error__" in impl) and case["op"] != "total":
+    if not (isinstance(impl, dict) and "__error__" in impl):
+        # (total: the real number is judged by the Lean clause `total_is_covered_bases`, an endpoint sweep that does
+        # not use merge)
         line["impl"] = _unwrap(impl)[0]
     return line
 
